@@ -58,7 +58,8 @@ def minTTL : List Ans → Nat
 
 /-- `resolveOneNoCache(name, typ)`: data of the matching records, TTL to cache them for -/
 def resolveOneNC (U : Universe) (name : Bytes) (typ : Nat) : Except RErr (List AData × Nat) :=
-  match U name typ with
+  -- the question encoder strips one trailing dot: "www.example.com." is asked as "www.example.com"
+  match U (trimDot name) typ with
   | .fail => .error .transport
   | .msg rc answers =>
     if rc ≠ 0 then .error (rcodeErr rc)
